@@ -160,7 +160,8 @@ def check_rejected(res):
         return [{"cls": "hang-on-bad-input", "site": "-", "detail": "no exit within %ss" % runner.RUN_TIMEOUT}]
     writes = core.output_writes(res)
     out_rel = core.rel_world(res, res["layout"]["output_dir"])
-    changed = {p: k for p, k in core.snapshot_diff(res, out_rel).items() if p != out_rel}
+    log_rel = core.rel_world(res, res["layout"]["log_dir"])
+    changed = {p: k for p, k in core.snapshot_diff(res, out_rel).items() if p != out_rel and p != log_rel and not p.startswith(log_rel + os.sep)}
     if res["rc"] == 0:
         fatal = "Fatal exception occurred" in core.all_text(res) or "Traceback (most recent call last)" in res["stderr"] or ": error:" in res["stderr"]
         if fatal:
